@@ -1295,10 +1295,18 @@ package queue
 //@   sets pgDepth := ite(result1 == nil && result0, old(pgDepth) - 1, old(pgDepth))
 //@   sets pgEvicted := ite(result1 == nil && result0, old(pgEvicted) + 1, old(pgEvicted))
 //@   ensures [C12:an_eviction_stays_inside_the_transaction] txPending >= old(txPending)
+// C02 on Postgres: the retention prune issues only its four DELETE statements, each only when its own policy is
+// switched on, with that policy's state and cutoff (all three age rules compare received_at on this backend)
+//@ spec
+//@ pred pgPruneByAge(q string) := q == "\nDELETE FROM queue_items\nWHERE state = $1\n  AND received_at < $2\n"
+//@ pred pgPruneDeadDepth(q string) := q == "\nDELETE FROM queue_items\nWHERE id IN (\n  SELECT id\n  FROM queue_items\n  WHERE state = $1\n  ORDER BY received_at DESC, id DESC\n  OFFSET $2\n)\n"
 //@ func (*PostgresStore).maybePrune
-//@   trusted
-//@   modifies durable, syncFullSet, pgPruned
-//@   ensures durable >= old(durable) && pgPruned - old(pgPruned) == durable - old(durable)
+//@   monitor s.mu
+//@   requires s != nil && s.db != nil
+//@   modifies durable, syncFullSet, pgPruned, s.lastPrune
+//@   calls database/sql.(*DB).ExecContext requires [C02:prune_statements_run_only_under_their_own_policy_with_its_cutoff] nvarargs == 2 && ((pgPruneByAge(arg2) && vararg0 == "queued" && s.retentionMaxAge > 0 && vararg1 == now - s.retentionMaxAge) || (pgPruneByAge(arg2) && vararg0 == "delivered" && s.deliveredRetentionMaxAge > 0 && vararg1 == now - s.deliveredRetentionMaxAge) || (pgPruneByAge(arg2) && vararg0 == "dead" && s.dlqRetentionMaxAge > 0 && vararg1 == now - s.dlqRetentionMaxAge) || (pgPruneDeadDepth(arg2) && vararg0 == "dead" && s.dlqMaxDepth > 0 && vararg1 == s.dlqMaxDepth))
+//@   sets pgPruned := old(pgPruned) + (durable - old(durable))
+//@   ensures [durable_only_grows] durable >= old(durable)
 
 //@ func (*PostgresStore).Enqueue$1$1
 //@   requires tx != nil
